@@ -1,4 +1,4 @@
-CONSTANT Cfg <- Cfg_cts_cancel
+CONSTANT CfgSet <- S_cts_cancel
 INIT MCInit
 NEXT Next
 CHECK_DEADLOCK FALSE
